@@ -38,6 +38,8 @@ def run(prog, chk):
     qualified_names(prog, chk)
     inner_events_guard(prog, chk)
     no_precheck(prog, chk)
+    from props import strops
+    strops.check_for(prog, chk, "C03")  # A14.str-ops: how this property's strings are cut up is a reviewed, frozen inventory
 
 
 def _bool_call_gate(body, callee_pred):
